@@ -2,7 +2,7 @@
     depth and shape, given what the generated facts say about the decorator and the wasm handler. *)
 From Coq Require Import List Bool Arith ZArith Lia.
 Import ListNotations.
-Require Import Nib.C17.AnteFacts Nib.C17.MsgTree Nib.C17.MsgTreeFacts Nib.C17.Model Nib.C17.Spec.
+Require Import Nib.C17.AnteFacts Nib.C17.CarrierTree Nib.C17.CarrierTreeFacts Nib.C17.Model Nib.C17.Spec.
 Local Open Scope Z_scope.
 
 (** ---------------------------------------------------------------- validator table *)
@@ -52,8 +52,8 @@ Definition leaf_capped (l : leaf) : Prop :=
   | _ => True
   end.
 
-Lemma leaf_run_capped s0 s s' l :
-  leaf_capped l -> changed_capped s0 s -> leaf_run s l = Some s' -> changed_capped s0 s'.
+Lemma leaf_run_capped gr s0 s s' l :
+  leaf_capped l -> changed_capped s0 s -> leaf_run gr s l = Some s' -> changed_capped s0 s'.
 Proof.
   intros Hl Hs Hrun. destruct l as [op r mx ch|op [r|]|a b k|a]; simpl in *.
   - destruct (r <? min_rate s); [discriminate|].
@@ -68,17 +68,17 @@ Proof.
     destruct (r <? min_rate s); [discriminate|].
     inversion Hrun. subst. apply changed_capped_set; simpl; auto.
   - destruct (find_val (vals s) op); [|discriminate]. inversion Hrun. subst. exact Hs.
-  - inversion Hrun. subst. eapply changed_capped_vals; [|exact Hs]. reflexivity.
+  - destruct (kind_routed gr k); [|discriminate]. inversion Hrun. subst. eapply changed_capped_vals; [|exact Hs]. reflexivity.
   - inversion Hrun. subst. exact Hs.
 Qed.
 
-Lemma leaf_run_harmless s s' l :
-  leaf_kind l = K_GRANT \/ leaf_kind l = K_SEND -> leaf_run s l = Some s' -> vals s' = vals s.
+Lemma leaf_run_harmless gr s s' l :
+  leaf_kind l = K_GRANT \/ leaf_kind l = K_SEND -> leaf_run gr s l = Some s' -> vals s' = vals s.
 Proof.
   intros Hk Hrun. destruct l as [op r mx ch|op ro|a b k|a]; simpl in *.
   - destruct Hk; discriminate.
   - destruct Hk; discriminate.
-  - inversion Hrun. reflexivity.
+  - destruct (kind_routed gr k); [|discriminate]. inversion Hrun. reflexivity.
   - inversion Hrun. reflexivity.
 Qed.
 
@@ -88,14 +88,18 @@ Definition cmp_sound (m : option cmp_method) : Prop := m = Some CmpGT \/ m = Som
 Definition cfg_ok (c : cfg) : Prop :=
   cap c <= CAP25 /\ dec_on c = true /\ cmp_sound (dec_create c) /\ cmp_sound (dec_edit c) /\
   dec_exec c = true /\ dec_rec c = true /\ wasm_check c = true /\ evm_only_eth c = true /\
-  cont_exec c = true /\ cont_staking c = true /\ cont_other c = true.
+  cont_exec c = true /\ cont_staking c = true /\ cont_other c = true /\
+  (* the set of message carriers of the linked application: all known to the model, and x/group (whose proposals
+     are executed through the router with no check on what they carry) not among the routed ones *)
+  carriers_known c = true /\ group_routed c = false.
 
 Definition cmp_soundb (m : option cmp_method) : bool :=
   match m with Some CmpGT | Some CmpGTE => true | _ => false end.
 
 Definition cfg_okb (c : cfg) : bool :=
   (cap c <=? CAP25) && dec_on c && cmp_soundb (dec_create c) && cmp_soundb (dec_edit c) &&
-  dec_exec c && dec_rec c && wasm_check c && evm_only_eth c && cont_exec c && cont_staking c && cont_other c.
+  dec_exec c && dec_rec c && wasm_check c && evm_only_eth c && cont_exec c && cont_staking c && cont_other c &&
+  carriers_known c && negb (group_routed c).
 
 Lemma cmp_soundb_sound m : cmp_soundb m = true -> cmp_sound m.
 Proof. destruct m as [[]|]; simpl; intro H; try discriminate; [now left|now right]. Qed.
@@ -104,7 +108,7 @@ Lemma cfg_okb_sound c : cfg_okb c = true -> cfg_ok c.
 Proof.
   unfold cfg_okb, cfg_ok. intro H.
   repeat (apply andb_true_iff in H as [H ?]).
-  repeat split; auto using cmp_soundb_sound. lia.
+  repeat split; auto using cmp_soundb_sound; [lia|]. now apply negb_true_iff.
 Qed.
 
 (** the ICA host allow-list admits only message types that cannot touch a commission *)
@@ -131,7 +135,7 @@ Definition scans_all (c : cfg) : Prop := cont_exec c = true /\ cont_staking c = 
 Lemma stops_false c lvl x : scans_all c -> stops c lvl x = false.
 Proof.
   intros (H1 & H2 & H3). unfold stops. rewrite H1, H2, H3.
-  destruct x as [[]| | | |]; simpl; try reflexivity.
+  destruct x as [[]| | | | | |]; simpl; try reflexivity.
   - destruct (dec_create c); reflexivity.
   - destruct (dec_edit c); reflexivity.
   - destruct (looks_into c lvl); reflexivity.
@@ -143,12 +147,15 @@ Proof.
 Qed.
 
 Lemma cfg_ok_scans_all c : cfg_ok c -> scans_all c.
-Proof. intros (_ & _ & _ & _ & _ & _ & _ & _ & H). exact H. Qed.
+Proof. intros (_ & _ & _ & _ & _ & _ & _ & _ & H1 & H2 & H3 & _). repeat split; assumption. Qed.
+
+Lemma cfg_ok_group_off c : cfg_ok c -> group_routed c = false.
+Proof. intros (_ & _ & _ & _ & _ & _ & _ & _ & _ & _ & _ & _ & H). exact H. Qed.
 
 (** a recursive check does not depend on how many MsgExec levels were already entered *)
 Lemma dec_rejects_lvl c : dec_rec c = true -> scans_all c -> forall t n, dec_rejects c n t = dec_rejects c 0 t.
 Proof.
-  intros Hrec Hall t. induction t as [l|g cs IH|s0 ct cs IH|p cs IH|r a cs IH] using (tree_ind' leaf); intro n; try reflexivity.
+  intros Hrec Hall t. induction t as [l|g cs IH|s0 ct cs IH|p cs IH|r a cs IH|p a tr cs IH|k a cs IH] using (tree_ind' leaf); intro n; try reflexivity.
   cbn [dec_rejects]. unfold looks_into. rewrite Hrec. rewrite !orb_true_l.
   destruct (dec_exec c); simpl; [|reflexivity].
   rewrite !(scan_existsb c _ _ _ Hall).
@@ -157,7 +164,7 @@ Proof.
 Qed.
 
 (** ---------------------------------------------------------------- unfolding equations *)
-Lemma run_msg_leaf c w l s : run_msg c w (Leaf l) s = leaf_run s l.
+Lemma run_msg_leaf c w l s : run_msg c w (Leaf l) s = leaf_run (group_routed c) s l.
 Proof. reflexivity. Qed.
 
 Lemma run_msg_exec c w g cs s :
@@ -174,7 +181,18 @@ Proof. reflexivity. Qed.
 
 Lemma run_msg_gov c w p cs s :
   run_msg c w (Gov p cs) s =
-  if forallb (fun c0 => basic_msg c0 && Nat.eqb (signer_msg c0) (w_gov w)) cs then Some s else None.
+  if forallb (fun c0 => basic_msg c0 && Nat.eqb (signer_msg c0) (w_gov w) && routable leaf (group_routed c) c0) cs then Some s else None.
+Proof. reflexivity. Qed.
+
+Lemma run_msg_group c w p pol tr cs s :
+  run_msg c w (Group p pol tr cs) s =
+  if group_routed c && w_group_member w pol p && forallb (fun c0 => Nat.eqb (signer_msg c0) pol) cs then
+    if tr then match seq_opt (run_msg c w) (fun _ _ => true) cs s with Some s' => Some s' | None => Some s end
+    else Some s
+  else None.
+Proof. reflexivity. Qed.
+
+Lemma run_msg_unk c w k a cs s : run_msg c w (Unk k a cs) s = None.
 Proof. reflexivity. Qed.
 
 Lemma run_msg_ica c w r a cs s :
@@ -196,7 +214,7 @@ Proof.
   intros Hc Hi t.
   pose proof Hc as (_ & _ & _ & _ & Hexec & Hrec & Hwasm & _).
   pose proof (cfg_ok_scans_all c Hc) as Hall.
-  induction t as [l|g cs IH|snd ct cs IH|p cs IH|r a cs IH] using (tree_ind' leaf); intros s s' Hd Hs Hrun.
+  induction t as [l|g cs IH|snd ct cs IH|p cs IH|r a cs IH|p pol tr cs IH|k a cs IH] using (tree_ind' leaf); intros s s' Hd Hs Hrun.
   - rewrite run_msg_leaf in Hrun. cbn [dec_rejects] in Hd.
     eapply leaf_run_capped; eauto using leaf_over_capped.
   - rewrite run_msg_exec in Hrun. cbn [dec_rejects] in Hd. unfold looks_into in Hd. rewrite Hexec, Hrec in Hd. simpl in Hd.
@@ -220,11 +238,14 @@ Proof.
     eapply seq_opt_inv_weak; [|exact Hs|exact E].
     intros c0 Hin s1 s3 Hs1 Hok Hr.
     apply andb_true_iff in Hok as [Hal _]. apply Hi in Hal.
-    destruct c0 as [l| | | |]; simpl in Hal; try (destruct Hal; discriminate).
+    destruct c0 as [l| | | | | |]; simpl in Hal; try (destruct Hal; discriminate).
     rewrite run_msg_leaf in Hr.
     eapply changed_capped_vals; [|exact Hs1].
     eapply leaf_run_harmless; [|exact Hr].
     destruct Hal as [E1|E1]; inversion E1; auto.
+  - (* x/group is not routed: the message has no handler *)
+    rewrite run_msg_group, (cfg_ok_group_off c Hc) in Hrun. discriminate.
+  - rewrite run_msg_unk in Hrun. discriminate.
 Qed.
 
 Lemma run_msgs_inv c w s0 ms :
@@ -346,12 +367,14 @@ Proof. intros (a & v & Hf & Hlt) H. specialize (H a v Hf). lia. Qed.
 
 Definition world_plain : world :=
   {| w_reflects := fun ctr snd => Nat.eqb ctr 10 && Nat.eqb snd 0; w_gov := 11%nat;
-     w_ica_acct := fun _ => false; w_ica_allow := fun _ => false |}.
+     w_ica_acct := fun _ => false; w_ica_allow := fun _ => false;
+     w_group_member := fun pol m => Nat.eqb pol 12 && (Nat.eqb m 1 || Nat.eqb m 10) |}.
 
 (** the ICA allow-list installed by upgrade v1.3.0 admits MsgExec *)
 Definition world_ica_exec : world :=
   {| w_reflects := fun _ _ => false; w_gov := 11%nat; w_ica_acct := fun a => Nat.eqb a 7;
-     w_ica_allow := fun k => match k with MKExec => true | _ => false end |}.
+     w_ica_allow := fun k => match k with MKExec => true | _ => false end;
+     w_group_member := fun _ _ => false |}.
 
 Definition r90 : Z := 900000000000000000.
 Definition mk (signer : addr) (ms : list msg) : event :=
@@ -369,7 +392,8 @@ Qed.
 Definition cfg_one_level : cfg :=
   {| cap := CAP25; nonevm_known := true; evm_route := RouteEVM; other_route := RouteReject; evm_only_eth := true;
      vb_on := true; sig_on := true; dec_on := true; dec_create := Some CmpGT; dec_edit := Some CmpGT;
-     dec_exec := true; dec_rec := false; cont_exec := true; cont_staking := true; cont_other := true; wasm_check := true |}.
+     dec_exec := true; dec_rec := false; cont_exec := true; cont_staking := true; cont_other := true; wasm_check := true;
+     group_routed := false; carriers_known := true |}.
 
 Lemma refuted_one_level :
   exists h, only_txs h /\ breaks_cap (run_history cfg_one_level world_plain (st0 0) h).
@@ -383,7 +407,8 @@ Qed.
 Definition cfg_exec_early_return : cfg :=
   {| cap := CAP25; nonevm_known := true; evm_route := RouteEVM; other_route := RouteReject; evm_only_eth := true;
      vb_on := true; sig_on := true; dec_on := true; dec_create := Some CmpGT; dec_edit := Some CmpGT;
-     dec_exec := true; dec_rec := true; cont_exec := false; cont_staking := true; cont_other := true; wasm_check := true |}.
+     dec_exec := true; dec_rec := true; cont_exec := false; cont_staking := true; cont_other := true; wasm_check := true;
+     group_routed := false; carriers_known := true |}.
 
 Lemma refuted_exec_early_return :
   exists h, only_txs h /\ breaks_cap (run_history cfg_exec_early_return world_plain (st0 0) h).
@@ -397,7 +422,8 @@ Qed.
 Definition cfg_genesis_no_decorator : cfg :=
   {| cap := CAP25; nonevm_known := true; evm_route := RouteEVM; other_route := RouteReject; evm_only_eth := true;
      vb_on := true; sig_on := true; dec_on := false; dec_create := Some CmpGT; dec_edit := Some CmpGT;
-     dec_exec := true; dec_rec := true; cont_exec := true; cont_staking := true; cont_other := true; wasm_check := true |}.
+     dec_exec := true; dec_rec := true; cont_exec := true; cont_staking := true; cont_other := true; wasm_check := true;
+     group_routed := false; carriers_known := true |}.
 
 Lemma refuted_genesis_chain_without_decorator :
   exists gentxs s1, run_genesis cfg_genesis_no_decorator world_plain (st0 0) gentxs = Some s1 /\ breaks_cap s1.
@@ -430,6 +456,49 @@ Proof.
   exists [EvGovPass 5 [Leaf (CreateVal 11 r90 ONE ONE)]].
   exists 11%nat. eexists. split; [vm_compute; reflexivity|vm_compute; reflexivity].
 Qed.
+
+(** the committed guards with x/group wired into the application (cfg_group_wired): a member of a one-vote group
+    submits a proposal with Exec = TRY carrying MsgCreateValidator{operator = the group policy account, 0.90};
+    the group keeper executes it through the router — no decorator, no wasm-handler check is on that path.
+    Also reached through authz (exec∘group) and from a contract (wasm∘group), and by an edit after 24 h *)
+Lemma refuted_group_wired :
+  exists h, only_txs h /\ breaks_cap (run_history cfg_group_wired world_plain (st0 0) h).
+Proof.
+  exists [mk 1 [Group 1 12 true [Leaf (CreateVal 12 r90 ONE ONE)]]]. split; [exact I|].
+  exists 12%nat. eexists. split; [vm_compute; reflexivity|vm_compute; reflexivity].
+Qed.
+
+Lemma refuted_group_wired_under_exec :
+  exists h, only_txs h /\ breaks_cap (run_history cfg_group_wired world_plain (st0 0) h).
+Proof.
+  exists [mk 1 [Exec 1 [Exec 1 [Group 1 12 true [Leaf (CreateVal 12 r90 ONE ONE)]]]]]. split; [exact I|].
+  exists 12%nat. eexists. split; [vm_compute; reflexivity|vm_compute; reflexivity].
+Qed.
+
+Lemma refuted_group_wired_from_contract :
+  exists h, only_txs h /\ breaks_cap (run_history cfg_group_wired world_plain (st0 0) h).
+Proof.
+  exists [mk 0 [Wasm 0 10 [Group 10 12 true [Leaf (CreateVal 12 r90 ONE ONE)]]]]. split; [exact I|].
+  exists 12%nat. eexists. split; [vm_compute; reflexivity|vm_compute; reflexivity].
+Qed.
+
+Lemma refuted_group_wired_edit :
+  exists h, only_txs h /\ breaks_cap (run_history cfg_group_wired world_plain (st0 0) h).
+Proof.
+  exists [mk 1 [Group 1 12 true [Leaf (CreateVal 12 100000000000000000 ONE ONE)]];
+          EvTx {| t_dt := 86400; t_ext := NoExt; t_signer := 1; t_msgs := [Group 1 12 true [Leaf (EditVal 12 (Some r90))]] |}].
+  split; [exact I|].
+  exists 12%nat. eexists. split; [vm_compute; reflexivity|vm_compute; reflexivity].
+Qed.
+
+(** what the refutation needs: with the same guards and x/group NOT routed the same history leaves no validator
+    (the transaction fails: no handler), and a proposal that is only stored (Exec unspecified) executes nothing *)
+Example group_unrouted_rejected :
+  vals (run_history cfg_fixed world_plain (st0 0) [mk 1 [Group 1 12 true [Leaf (CreateVal 12 r90 ONE ONE)]]]) = [] /\
+  vals (run_history cfg_group_wired world_plain (st0 0) [mk 1 [Group 1 12 false [Leaf (CreateVal 12 r90 ONE ONE)]]]) = [] /\
+  vals (run_history cfg_group_wired world_plain (st0 0) [mk 2 [Group 2 12 true [Leaf (CreateVal 12 r90 ONE ONE)]]]) = [] /\
+  vals (run_history cfg_group_wired world_plain (st0 0) [mk 1 [Group 1 12 true [Leaf (CreateVal 1 r90 ONE ONE)]]]) = [].
+Proof. vm_compute. repeat split; reflexivity. Qed.
 
 (** ---------------------------------------------------------------- non-vacuity *)
 Example cfg_fixed_ok : cfg_ok cfg_fixed.
